@@ -226,6 +226,11 @@ def atom_facts(n, truth):
     if k == "MCall" and n.get("n") in ("operator bool",):
         return atom_facts(n.get("obj"), truth)
     c = cmp_parts(n)
+    if c is not None and c[0] in ("==", "!="):
+        for x, y in ((c[1], c[2]), (c[2], c[1])):
+            sy = strip(y)
+            if sy is not None and sy.get("k") == "Bool":
+                return atom_facts(x, truth == ((c[0] == "==") == bool(sy["v"])))
     vs = frozenset(vars_of(n) | call_deps(n))
     sv = shape_vars(n)
     if k == "MCall" and n.get("n") == "empty" and not n.get("a"):
@@ -459,9 +464,9 @@ class ECFG:
         c = self.fn.by_id(blk["cond"])
         if c is None:
             return None
-        leaf = eff_leaf(c) if blk.get("term") != "BinaryOperator" else strip(c)
-        if blk.get("term") == "BinaryOperator":
-            leaf = eff_leaf(c)
+        # if/loop terminators carry the whole condition (its last operand is what this block decides);
+        # `||`/`&&` terminators carry their left operand
+        leaf = eff_leaf(c)
         return leaf, ss[0], ss[1]
 
     def edge_facts(self, b, s):
@@ -670,6 +675,23 @@ class ECFG:
 
     def throw_classes_from(self, s):
         return sorted({self.throw_class(b) for b in self.reachable(s) if b in self.throws})
+
+
+def call_branch(e, call):
+    """(block, successor taken when `call` returned true, successor when false) of the branch that tests the bool
+    result of `call` (through !, == true/false, || / && operands), or None"""
+    cs = norm(call)
+    for b in e.el:
+        br = e.branch(b)
+        if br is None:
+            continue
+        leaf, t, fl = br
+        if not any(x is call or (x.get("i") is not None and x.get("i") == call.get("i") and x.get("k") == call.get("k")) for x in walk(leaf)):
+            continue
+        for fa in atom_facts(leaf, True):
+            if fa[0] == "b" and fa[1] == cs:
+                return (b, t, fl) if fa[3] else (b, fl, t)
+    return None
 
 
 def find_fact(facts, kind, A=None, B=None, truth=None):
@@ -1013,7 +1035,39 @@ def rule_counter(ck, W, pcs):
 # E7.parse-result-used
 # -------------------------------------------------------------------------------------------------
 
-def out_arg_key(n):
+def attr_of_receiver(f, call):
+    """name K if the receiver of `call` is the value of attrs.find(K) (directly or through an iterator variable whose
+    closest preceding binding is attrs.find(K))"""
+    o = call.get("obj")
+    for z in walk(o):
+        if z.get("k") == "MCall" and z.get("n") == "find" and z.get("a") and str_value(z["a"][0]) is not None:
+            return str_value(z["a"][0])
+    r = root_var(o)
+    if r is None:
+        return None
+    K, best = None, -1
+    for n in f.nodes():
+        tgt, init = None, None
+        if n.get("k") == "Var" and n.get("init") is not None:
+            tgt, init = n["n"], n["init"]
+        elif n.get("k") == "OpCall" and n.get("op") == "=" and len(n.get("a", [])) == 2:
+            tgt, init = root_var(n["a"][0]), n["a"][1]
+        elif n.get("k") == "Assign" and n.get("op") == "=":
+            tgt, init = root_var(n["lhs"]), n["rhs"]
+        if tgt != r:
+            continue
+        for z in walk(init):
+            if z.get("k") == "MCall" and z.get("n") == "find" and z.get("a") and str_value(z["a"][0]) is not None:
+                if best < z.get("i", 0) < call.get("i", 1 << 30):
+                    K, best = str_value(z["a"][0]), z.get("i", 0)
+    return K
+
+
+def out_arg_key(f, n):
+    """instance name of a parse call: the attribute whose value is parsed, else the variable that receives the value"""
+    K = attr_of_receiver(f, n)
+    if K is not None:
+        return "attr:" + K
     a = n.get("a", [])
     return norm(a[0]) if a else "?"
 
@@ -1032,7 +1086,7 @@ def rule_parse_used(ck, W, facts, file_re=None):
         par = e.parents()
         ordn = {}
         for n in calls:
-            base = "%s::%s/%s" % (short(f.cls) or "", f.name, out_arg_key(n))
+            base = "%s::%s/%s" % (short(f.cls) or "", f.name, out_arg_key(f, n))
             ordn[base] = ordn.get(base, 0) + 1
             key = base if ordn[base] == 1 else "%s#%d" % (base, ordn[base])
             # how is the value consumed?
@@ -1045,19 +1099,8 @@ def rule_parse_used(ck, W, facts, file_re=None):
             if p is not None and p.get("k") == "Return":
                 prob = None   # handed to the caller
             else:
-                # find the branch block whose leaf is (a negation of) this call
-                hit = None
-                for b in e.el:
-                    br = e.branch(b)
-                    if br is None:
-                        continue
-                    leaf, t, fl = br
-                    y, neg = strip(leaf), False
-                    while y is not None and y.get("k") == "Un" and y.get("op") == "!":
-                        y, neg = strip(y["e"]), not neg
-                    if y is not None and y.get("i") == n["i"]:
-                        hit = (b, fl if not neg else t)
-                        break
+                cb = call_branch(e, n)
+                hit = (cb[0], cb[2]) if cb else None
                 if hit is None:
                     prob = "the result of `%s` is discarded: a token that does not parse leaves the default value in place and the input is accepted" % render(n)[:80]
                 else:
@@ -1470,6 +1513,26 @@ def index_store_bound(f, cfs, outarg):
     return None
 
 
+def index_store_name(f, outarg):
+    """the field (index set / raw index pointer) a parsed index is stored into"""
+    x = strip(outarg)
+    for _ in range(4):
+        if x is None:
+            break
+        if x.get("k") == "Ref" and x.get("dk") == "local":
+            init = local_init(f, x["n"])
+            if init is None:
+                break
+            x = init
+        elif x.get("k") == "OpCall" and x.get("a"):
+            x = strip(x["a"][0])
+        elif x.get("k") == "Index":
+            x = strip(x["b"])
+        else:
+            break
+    return root_var(x) if x is not None and root_var(x) else norm(outarg)
+
+
 def passes_check(e, start, fact3, back_to):
     """every path from block `start` to a normal exit or back to block `back_to` crosses an edge that
     establishes fact3=(kind,A,B,truth)"""
@@ -1509,22 +1572,13 @@ def rule_index_range(ck, W, facts):
             bound = index_store_bound(f, cfs, n["a"][0])
             if bound is None:
                 continue
-            key = "%s::%s/%s" % (short(f.cls), f.name, norm(n["a"][0]))
+            key = "%s::%s/%s" % (short(f.cls), f.name, index_store_name(f, n["a"][0]))
             if isinstance(bound, tuple):
                 record(key, f, n.get("l"), bound[1])
                 continue
             e = e or W.ecfg(f)
-            hit = None
-            for b in e.el:
-                br = e.branch(b)
-                if br is None:
-                    continue
-                leaf, t, fl = br
-                y, neg = strip(leaf), False
-                while y is not None and y.get("k") == "Un" and y.get("op") == "!":
-                    y, neg = strip(y["e"]), not neg
-                if y is not None and y.get("i") == n["i"]:
-                    hit = (b, t if not neg else fl)
+            cb = call_branch(e, n)
+            hit = (cb[0], cb[1]) if cb else None
             if hit is None:
                 record(key, f, n.get("l"), None)   # parse-result-used reports the unused result
                 continue
@@ -1538,10 +1592,11 @@ def rule_index_range(ck, W, facts):
             if n.get("k") == "MCall" and n.get("callee") == "FEAT::Adjacency::DynamicGraph::insert" and len(n.get("a", [])) == 2:
                 e = e or W.ecfg(f)
                 recv = norm(n.get("obj"))
-                for a, acc in zip(n["a"], ("get_num_nodes_domain", "get_num_nodes_image")):
+                pn = n.get("pn") or ["domain_node", "image_node"]
+                for ai, (a, acc) in enumerate(zip(n["a"], ("get_num_nodes_domain", "get_num_nodes_image"))):
                     V = norm(a)
                     bound = "%s.%s()" % (recv, acc)
-                    key = "%s::%s/insert:%s" % (short(f.cls), f.name, V)
+                    key = "%s/%s.insert:%s" % (short(f.cls), recv, pn[ai] if ai < len(pn) else ai)
                     if is_this_field(a):
                         # parsed in another callback: the bound must hold when that callback returns
                         done = False
@@ -1960,7 +2015,6 @@ class Emitter:
         self.W = W
         self.ck = ck
         self._emits = {}
-        self.unknown = []
 
     def emits(self, f, seen=None):
         if f.full in self._emits:
